@@ -5,7 +5,7 @@ from .. import engine as E
 from .. import catalogue as K
 from .. import tys as T
 
-THEOREMS = ["c14_first_report", "c14_ok_same", "c14_path_roundtrip", "c14_path_injective", "c14_rendered_report_is_true", "c14_path_qp_roundtrip"]
+THEOREMS = ["c14_first_report", "c14_ok_same", "c14_path_roundtrip", "c14_path_injective", "c14_rendered_report_is_true", "c14_path_qp_roundtrip", "c14_contents_path", "c14_contents_root", "c14_contents_value", "c14_contents_value_quoted", "c14_contents_missing", "c14_contents_unknown_key", "c14_contents_unknown_value", "c14_contents_len", "c14_contents_detail", "c14_contents_suggestion", "c14_contents_qp"]
 
 
 def float_bits(p, acc):
